@@ -490,7 +490,35 @@ def pinned_cases(rng, ns_min):
     return out
 
 
+def touching_case(rng, ns_min):
+    """Neighbours that just fit side by side at their data positions - box next to box with less than a unit between them, at
+    fractional pixel positions - but NOT at the label spacing: they have to be pushed apart (rounding alone would make the
+    boxes meet).  A linear scale whose domain equals its range maps data values to pixels one to one."""
+    direction = rng.choice(["up", "down"])
+    opts = make_options(rng, "linear", [], ns_min=ns_min)
+    opts.pop("domain", None)
+    opts.pop("margin", None)
+    opts["direction"] = direction
+    opts["labella"] = {"nodeSpacing": max(3, opts["labella"].get("nodeSpacing", 3))}
+    L = opts["initialWidth"] - 40
+    opts["domain"] = [0, L]
+    pad = opts["labelPadding"]["left"] + opts["labelPadding"]["right"]
+    data = []
+    x = 40.6
+    for k in range(rng.randint(1, 3)):
+        w1, w2 = rng.choice([50, 51, 37.5]), rng.choice([50, 51, 20])
+        d = (w1 + pad + w2 + pad) / 2.0 + rng.choice([0.1, 0.3, 0.7])
+        data.append({"time": x, "width": w1, "id": len(data) + 1, "text": "l%d" % k})
+        data.append({"time": x + d, "width": w2, "id": len(data) + 1, "text": "r%d" % k})
+        x += d + w2 + pad + 30.3
+    return [dd for dd in data if dd["time"] < L - 60], opts, "linear"
+
+
 def draw_case(rng, ns_min=0, kind=None):
+    if kind is None and rng.random() < 0.06:
+        data, opts, k = touching_case(rng, ns_min)
+        if len(data) >= 2:
+            return data, opts, k
     kind = kind or rng.choice(["linear", "time", "time"])
     data = make_dataset(rng, kind)
     opts = make_options(rng, kind, data, ns_min=ns_min)
